@@ -311,10 +311,15 @@ NOT_APPLICABLE = {
 
 PENDING = 'not claimed'
 
-GENERIC = (' Also decided over this property\'s files (engine/generic.py): no dropped failure result (E), 1-bit flags '
-           'stored normalised (B), boundaries / named constants / argument roles unchanged against the reference '
-           'profile (C, K, A), field widths agree (W), allocation results examined (N), "unset" sentinels survive '
-           'widening (S).')
+GENERIC = (' Also decided (engine/generic.py) over the functions of this property\'s files and the general-purpose '
+           'functions they call (lists, hash tables, strings, pools, counters, main loop, system wrappers): no dropped '
+           'failure result (E), 1-bit flags stored normalised (B), field widths agree (W), allocation results examined '
+           '(N), "unset" sentinels survive widening (S) and are not the only value handed on (U), constructors read a '
+           'field only after storing it (Z), cursor loops advance on every way round (G), trivial accessors use the '
+           'field they are named after (H), list walks start at the head and follow one direction (L); and, against '
+           'the reference profile of the repaired tree (engine/baseline_*.json): boundaries, constant arguments, '
+           'argument roles, stored / returned constants, switch fall-through, small offsets, truth tables of compound '
+           'conditions and sibling callees unchanged (C, K, A, R, F, O, T, V).')
 
 EXTRA = {
     'C01': ' Further: bracket kinds of signatures nest (C01.9), wire-format limits inclusive everywhere (C01.10), '
@@ -327,20 +332,28 @@ EXTRA = {
     'C06': ' Further: every DBusConnection parameter of a gate caller is one of the gate\'s parties (C06.10); rule '
            'destination / origin are compared through destination / sender accessors (C06.11).',
     'C07': ' Further: the tokeniser succeeds only when the whole rule text was consumed (C07.2b); the disconnect sweep '
-           'removes only rules owned by or naming the departing connection (C07.4b); argN bytes compared over arg_lens[i].',
+           'removes only rules owned by or naming the departing connection (C07.4b); argN bytes compared over arg_lens[i]; '
+           'a name in sender= / destination= stands for its primary owner only (C07.9).',
     'C09': ' Further: in bus_dispatch_matches the gate is the last non-OOM refusal before staging (C09.1); pending-reply '
            'list never recreated (C09.6); gate told every party (C09.7).',
     'C10': ' Further: header edits use the message\'s byte order (C10.7); a held request\'s connection is used only '
-           'while connected (C10.8).',
-    'C11': ' Further: with descriptors pending the read budget is exactly what completes the current message (C11.6).',
+           'while connected (C10.8); bus default limits do not exceed the library\'s (C10.9); disabled watches are '
+           'edge-triggered with an empty mask (C10.10).',
+    'C11': ' Further: with descriptors pending the read budget is exactly what completes the current message (C11.6); '
+           'errno predicates test the errno they are named after (C11.8).',
     'C12': ' Further: unknown-field stripping covers 11..255 with an unsigned code (C12.8).',
-    'C13': ' Further: a refused request holds no pending-reply slot (C13.7); counter containers never recreated (C13.6).',
+    'C13': ' Further: a refused request holds no pending-reply slot (C13.7); counter containers never recreated (C13.6); '
+           '<limit> names and BusLimits fields one to one (C13.8); limit setters only lower the request (C13.9).',
     'C14': ' Further: references taken are released on the failure paths that follow (C14.2g); a preallocated hash '
            'entry is consumed or freed before it is forgotten (C14.9).',
     'C15': ' Further: read budget while descriptors are pending (C15.8); descriptor passing marked negotiated only on '
-           'AGREE_UNIX_FD / when answering NEGOTIATE_UNIX_FD (C15.9).',
+           'AGREE_UNIX_FD / when answering NEGOTIATE_UNIX_FD (C15.9); limit setters only lower the request (C15.11).',
     'C16': ' Further: struct and dict-entry brackets nest -- a closing bracket matches the innermost open one (C16.5).',
-    'C17': ' Further: the I/O path is released on every path on which it was acquired (C17.8).',
+    'C17': ' Further: the I/O path is released on every path on which it was acquired (C17.8); serials are written in '
+           'the message\'s byte order (C17.9); condition variables wait on the clock their deadline was read from (C17.10).',
+    'C18': ' Further: capture and route name the same parties (C18.8); a name in a monitor\'s filter stands for its '
+           'primary owner only (C18.9).',
+    'C08': ' Further: every parser field an element handler sets is merged from included files (C08.7).',
     'C19': ' Further: pending activations survive reload (C19.6); a held request\'s connection is used only while '
            'connected (C19.7); the helper\'s parser records each element\'s own type (C19.8).',
 }
